@@ -404,12 +404,12 @@ Qed.
 Lemma map_nth_opt_nseq (xs : list N) : map (nth_opt xs) (nseq (lenN xs)) = map Some xs.
 Proof.
   apply nth_ext with (d := None) (d' := None).
-  - rewrite !map_length. unfold nseq. rewrite map_length, seq_length. unfold lenN. lia.
-  - intros i Hi. rewrite map_length in Hi. unfold nseq in Hi. rewrite map_length, seq_length in Hi.
+  - rewrite !map_length. rewrite ?nseq_unfold. rewrite map_length, seq_length. unfold lenN. lia.
+  - intros i Hi. rewrite map_length in Hi. rewrite ?nseq_unfold in Hi. rewrite map_length, seq_length in Hi.
     assert (Hi' : (i < length xs)%nat) by (unfold lenN in Hi; lia).
     rewrite (nth_indep _ None (nth_opt xs 0))
-      by (rewrite map_length; unfold nseq; rewrite map_length, seq_length; exact Hi).
-    rewrite map_nth. unfold nseq.
+      by (rewrite map_length; rewrite ?nseq_unfold; rewrite map_length, seq_length; exact Hi).
+    rewrite map_nth. rewrite ?nseq_unfold.
     rewrite (nth_indep _ 0 (N.of_nat 0)) by (rewrite map_length, seq_length; exact Hi).
     rewrite map_nth, seq_nth by exact Hi. cbn [Nat.add].
     rewrite nth_opt_in by (unfold lenN; lia).
